@@ -52,9 +52,22 @@ Proof.
   destruct (Z.leb_spec newId 0); [lia|]. rewrite Hm. reflexivity.
 Qed.
 
-Lemma next_id_eq m : minv m -> next_id m = snext m + 1.
+(* as long as the 63-bit counter has not reached its top, the next id is the successor *)
+Lemma wrap64_small z : z < 2 ^ 63 -> wrap64 z = z.
+Proof. intros H. unfold wrap64. destruct (Z.leb_spec (2 ^ 63) z); [lia|reflexivity]. Qed.
+
+Lemma alloc_fresh next refer :
+  0 <= next -> next + 1 < 2 ^ 63 -> Forall (fun x => x <= next) refer -> alloc_id next refer = next + 1.
 Proof.
-  intros H. unfold next_id. apply next_id_loop_fresh; [pose proof (mi_next m H); lia|].
+  intros H0 Hroom Hle. unfold alloc_id. rewrite wrap64_small by exact Hroom.
+  apply next_id_loop_fresh; [lia|]. apply not_true_is_false. intros Hm. apply mem_In in Hm.
+  rewrite Forall_forall in Hle. specialize (Hle _ Hm). lia.
+Qed.
+
+Lemma next_id_eq m : minv m -> snext m + 1 < 2 ^ 63 -> next_id m = snext m + 1.
+Proof.
+  intros H Hroom. unfold next_id, alloc_id. rewrite wrap64_small by exact Hroom.
+  apply next_id_loop_fresh; [pose proof (mi_next m H); lia|].
   apply not_true_is_false. intros Hm. apply mem_In in Hm.
   pose proof (mi_refer m H) as Hr. rewrite Forall_forall in Hr. specialize (Hr _ Hm). lia.
 Qed.
@@ -177,13 +190,14 @@ Lemma nid_request m id d p : nid (request m id d p) = id.
 Proof. unfold request. destruct (score m); reflexivity. Qed.
 
 Lemma schedule_sim m z d p :
-  minv m -> rel m z -> 0 <= d -> 0 <= p ->
+  minv m -> rel m z -> snext m + 1 < 2 ^ 63 -> 0 <= d -> 0 <= p ->
   sim_step m z (fst (schedule m d p)) (snd (schedule m d p)) (fst (sschedule z d p)) (snd (sschedule z d p)).
 Proof.
-  intros Hm Hr Hd Hp. pose proof (next_id_eq m Hm) as Hid.
+  intros Hm Hr Hroom Hd Hp. pose proof (next_id_eq m Hm Hroom) as Hid.
   destruct Hr as [Rc [Rr [Rn [Rq [Rd [Rp Rk]]]]]].
   destruct Hm as [Mn Mr Mrn Mi Ml Mp Mc Mq].
-  unfold schedule, sschedule. rewrite Hid. cbn [fst snd].
+  unfold schedule, sschedule. rewrite Rn, Rr. change (alloc_id (snext m) (srefer m)) with (next_id m).
+  rewrite Hid. cbn [fst snd].
   set (id := snext m + 1) in *.
   assert (Hreq : request m id d p =
                  (if zwheel z then mkNode id d p else mkNode id (sclock m + d + p) p)).
@@ -211,13 +225,13 @@ Proof.
     + apply Forall_app. split; [exact Mq|]. constructor; [|constructor].
       unfold req_ok, request. destruct (score m); cbn; [lia|exact I].
   - unfold rel. cbn [zclock zrefer znext zreq zdels zpending zwheel ztt sclock srefer snext spadd spdel score].
-    rewrite Rr, Rn, Rq, Rc, Hreq. fold id.
+    rewrite Rq, Rc, Hreq. fold id.
     split; [reflexivity|]. split; [reflexivity|]. split; [reflexivity|]. split; [reflexivity|].
     split; [exact Rd|]. split; [|exact Rk].
     rewrite (filter_ext_in' (alive (srefer m ++ [id])) (alive (srefer m))); [exact Rp|].
     intros n Hn. apply alive_app_fresh. intros E. apply Hfresh. unfold all_ids. apply in_app_iff. right.
     rewrite <- E. apply in_map. exact Hn.
-  - unfold out_eq. rewrite Rq, Rn. reflexivity.
+  - unfold out_eq. rewrite Rq. reflexivity.
 Qed.
 
 Lemma cancel_sim m z id :
@@ -406,12 +420,12 @@ Proof.
 Qed.
 
 Lemma step_sim m z o :
-  minv m -> rel m z ->
+  minv m -> rel m z -> snext m + 1 < 2 ^ 63 ->
   sim_step m z (fst (step m o)) (snd (step m o)) (fst (sstep z o)) (snd (sstep z o)).
 Proof.
-  intros Hm Hr. destruct o.
-  - cbn [step sstep]. apply schedule_sim; [exact Hm|exact Hr|lia|lia].
-  - cbn [step sstep]. apply schedule_sim; [exact Hm|exact Hr|lia|].
+  intros Hm Hr Hroom. destruct o.
+  - cbn [step sstep]. apply schedule_sim; [exact Hm|exact Hr|exact Hroom|lia|lia].
+  - cbn [step sstep]. apply schedule_sim; [exact Hm|exact Hr|exact Hroom|lia|].
     destruct (Z.ltb_spec p 0); lia.
   - apply cancel_sim; assumption.
   - cbn [step sstep fst snd]. destruct Hr as [Rc [Rr R]]. split; [exact Hm|split; [unfold rel; tauto|]].
@@ -429,17 +443,41 @@ Proof.
   - cbn [step sstep fst snd]. split; [exact Hm|split; [exact Hr|exact I]].
 Qed.
 
-(* every history *)
+(* the id counter moves by at most one per step *)
+Lemma step_next_le m o : minv m -> snext m + 1 < 2 ^ 63 -> snext m <= snext (fst (step m o)) <= snext m + 1.
+Proof.
+  intros Hm Hroom. pose proof (next_id_eq m Hm Hroom) as Hid. destruct o; cbn [step].
+  - unfold schedule. cbn [fst snext]. lia.
+  - unfold schedule. cbn [fst snext]. lia.
+  - destruct (mem id (srefer m)); cbn [fst snext]; lia.
+  - cbn [fst]. lia.
+  - cbn [fst]. lia.
+  - destruct (spadd m); cbn [fst snext]; lia.
+  - destruct (spdel m); cbn [fst snext]; lia.
+  - cbn [fst snext]. lia.
+  - destruct (core_tick (score m) (srefer m) (sclock m)) as [[c r] o]. cbn [fst snext]. lia.
+  - cbn [fst]. lia.
+Qed.
+
+(* every history that does not exhaust the 63-bit id counter *)
+Definition fits (m : st) (ops : list op) : Prop := snext m + Z.of_nat (length ops) < 2 ^ 63 - 1.
+
+(* histories from a fresh scheduler (counter 0) that do not exhaust the counter *)
+Definition short (ops : list op) : Prop := Z.of_nat (length ops) < 2 ^ 63 - 1.
+
 Theorem run_refines ops : forall m z,
-  minv m -> rel m z ->
+  minv m -> rel m z -> fits m ops ->
   minv (fst (run m ops)) /\ rel (fst (run m ops)) (fst (srun z ops)) /\
   Forall2 out_eq (snd (run m ops)) (snd (srun z ops)).
 Proof.
-  induction ops as [|o ops IH]; intros m z Hm Hr; cbn [run srun].
+  induction ops as [|o ops IH]; intros m z Hm Hr Hf; cbn [run srun].
   - cbn. split; [exact Hm|split; [exact Hr|constructor]].
-  - destruct (step_sim m z o Hm Hr) as [Hm1 [Hr1 Ho]].
+  - unfold fits in Hf. cbn [length] in Hf.
+    assert (Hroom : snext m + 1 < 2 ^ 63) by lia.
+    destruct (step_sim m z o Hm Hr Hroom) as [Hm1 [Hr1 Ho]].
+    pose proof (step_next_le m o Hm Hroom) as Hn.
     destruct (step m o) as [m1 a]. destruct (sstep z o) as [z1 b]. cbn [fst snd] in *.
-    destruct (IH m1 z1 Hm1 Hr1) as [Hm2 [Hr2 Hos]].
+    destruct (IH m1 z1 Hm1 Hr1) as [Hm2 [Hr2 Hos]]; [unfold fits; lia|].
     destruct (run m1 ops) as [m2 xs]. destruct (srun z1 ops) as [z2 ys]. cbn [fst snd] in *.
     split; [exact Hm2|split; [exact Hr2|constructor; assumption]].
 Qed.
